@@ -95,8 +95,8 @@ static void build_catalogue(void)
 	one("cl5-extra-response", S(SL CL5 END "hello" R2CL));
 	one("cl-dup-same", S(SL CL5 CL5 END "hello"));
 	one("cl-dup-diff", S(SL CL5 "Content-Length: 6\r\n" END "hello!"));
-	one("cl-dup-diff-rev", S(SL "Content-Length: 6\r\n" CL5 END "hello!"));
-	one("cl-dup-diff-apart", S(SL CL5 "X-A: b\r\n" "content-length: 3\r\n" END "hello"));
+	one("cl-dup-diff", S(SL "Content-Length: 6\r\n" CL5 END "hello!"));
+	one("cl-dup-diff", S(SL CL5 "X-A: b\r\n" "content-length: 3\r\n" END "hello"));
 	one("cl-list-same", S(SL "Content-Length: 5, 5\r\n" END "hello"));
 	one("cl-list-diff", S(SL "Content-Length: 5, 6\r\n" END "hello!"));
 	one("cl-signed", S(SL "Content-Length: +5\r\n" END "hello"));
@@ -180,8 +180,8 @@ static void build_catalogue(void)
 	one("close-empty", S(SL END));
 	one("close-hdrs", S(SL "X-A: b\r\n" END "hello world"));
 	one("close-conn-close", S(SL "Connection: close\r\n" END "hello"));
-	one("no-length-connection-keepalive", S(SL "Connection: keep-alive\r\n" END "hello"));
-	one("no-length-connection-other", S(SL "Connection: x-foo\r\n" END "hello"));
+	one("no-length-with-connection-field", S(SL "Connection: keep-alive\r\n" END "hello"));
+	one("no-length-with-connection-field", S(SL "Connection: x-foo\r\n" END "hello"));
 	one("close-http10", S("HTTP/1.0 200 OK\r\n" END "hello"));
 	one("close-binary", S(SL END "a\0b\r\n\r\nHTTP/1.1 200 OK\r\n\r\n\xff"));
 	one("close-404", S("HTTP/1.1 404 Not Found\r\n" END "nope"));
@@ -281,7 +281,7 @@ static void build_catalogue(void)
 		F("q-cl-dup-diff", M_GET, SL CL5 "Content-Length: 6\r\n" END "hello!"),
 		F("q-ch-bad-size", M_GET, SL TEC END "zz\r\nhello\r\n0\r\n\r\n"),
 		F("q-404", M_GET, "HTTP/1.1 404 Not Found\r\nContent-Length: 4\r\n" END "nope"),
-		F("q-no-length-connection-keepalive", M_GET, SL "Connection: keep-alive\r\n" END),
+		F("q-no-length-with-connection-field", M_GET, SL "Connection: keep-alive\r\n" END),
 #undef F
 	};
 	for (size_t i = 0; i < sizeof firsts / sizeof firsts[0]; i++) {
@@ -400,7 +400,8 @@ static void run_scenario(const struct stream *st, const size_t *cuts, int ncuts,
 		size_t to = s < ncuts ? cuts[s] : avail;
 		cur_seg = s;
 		if (to > from) {
-			if (hc_peer_write(sv[1], st->bytes + from, to - from) < 0) mc_fail("harness:peer-write", "%s", strerror(errno));
+			/* EPIPE: the client has already dropped the connection; the rest cannot be delivered */
+			if (hc_peer_write(sv[1], st->bytes + from, to - from) < 0 && errno != EPIPE && errno != ECONNRESET) mc_fail("harness:peer-write", "%s", strerror(errno));
 			hc_run();
 			hc_settle_connect(evcon);
 		}
